@@ -23,6 +23,11 @@ type c16Case struct {
 	Cfg      eng.Config
 	Writers  int
 	N        int
+	// Child selects what the writers of the back-pressure scenarios write:
+	// "" = one top-level key each; "same" = only a key of child collection
+	// A; "distinct" = only a key of the writer's own child collection;
+	// "mixed" = odd writers a top-level key, even writers child-only.
+	Child string `json:",omitempty"`
 }
 
 type pendingCall struct {
@@ -125,6 +130,42 @@ func execOne(coll moss.Collection, key string) error {
 	return coll.ExecuteBatch(b, moss.WriteOptions{})
 }
 
+// execKind executes one single-key batch: top-level (child == "") or a
+// batch that holds nothing but a child batch for the named child.
+func execKind(coll moss.Collection, key, child string) error {
+	if child == "" {
+		return execOne(coll, key)
+	}
+	b, err := coll.NewBatch(1, 64)
+	if err != nil {
+		return err
+	}
+	defer b.Close()
+	cb, err := b.NewChildCollectionBatch(child, moss.BatchOptions{TotalOps: 1, TotalKeyValBytes: 64})
+	if err != nil {
+		return err
+	}
+	if err = cb.Set([]byte(key), []byte("v")); err != nil {
+		return err
+	}
+	return coll.ExecuteBatch(b, moss.WriteOptions{})
+}
+
+// childFor maps a writer to the child collection it writes (see c16Case.Child).
+func childFor(mode string, w int) string {
+	switch mode {
+	case "same":
+		return "A"
+	case "distinct":
+		return fmt.Sprintf("W%d", w)
+	case "mixed":
+		if w%2 == 0 {
+			return fmt.Sprintf("W%d", w%3)
+		}
+	}
+	return ""
+}
+
 type notifier interface {
 	NotifyMerger(string, bool) error
 }
@@ -179,7 +220,11 @@ func runC16(cs *c16Case, scratch string, idx int, sr *run.ShardResult) (class, d
 		var calls []*pendingCall
 		for w := 0; w < cs.Writers; w++ {
 			key := fmt.Sprintf("w%d", w)
-			calls = append(calls, set.goCall("ExecuteBatch#"+key, func() error { return execOne(coll, key) }))
+			child := childFor(cs.Child, w)
+			calls = append(calls, set.goCall("ExecuteBatch#"+key+"@"+child, func() error { return execKind(coll, key, child) }))
+		}
+		if cs.Child != "" {
+			unit("child-batches:" + cs.Child)
 		}
 		// wait until the accepted ones returned and the others are blocked
 		deadline := time.Now().Add(wd)
@@ -979,6 +1024,10 @@ func genC16(r *eng.Rng, idx int) *c16Case {
 		}
 	}
 	c := &c16Case{Scenario: sc, Seed: r.U64(), Cfg: cfg, Writers: cfg.MaxPre() + 1 + r.Intn(4), N: 20 + r.Intn(60)}
+	if strings.HasPrefix(sc, "backpressure-") && cfg.Backing != "custom" && r.Chance(1, 2) {
+		// the bound is on accepted batches, whatever they touch
+		c.Child = []string{"same", "distinct", "mixed"}[r.Intn(3)]
+	}
 	return c
 }
 
